@@ -48,7 +48,7 @@ theorem setState_ext (t : Trigger) (v : Val) : Resp (Ext t.tid) (setState t v) :
 
 theorem entryOk_tid (HR : Res → Prop) (x : Ctx) (ph : Phase) (cb : CbId) :
     EntryOk (fun _ e => e.tid = x.t.tid) HR x ph cb :=
-  fun _ => ⟨rfl, fun _ _ => rfl, rfl⟩
+  fun _ => ⟨rfl, fun _ _ => rfl, fun _ => rfl⟩
 
 /-- processing trigger `t` in run-to-completion mode extends the configuration as `Ext t.tid` says -/
 theorem trigger_ext (m : Machine) (t : Trigger) : Resp (Ext t.tid) (trigger nestedRtc m t) :=
